@@ -23,8 +23,8 @@ def used(name):
 
 
 DSL_FUNCS = {"forall", "exists", "implies", "ite", "old"}
-CONSTS = {"np.pi": math.pi, "math.pi": math.pi, "np.newaxis": NONE}
-CM_CLASSES = {"File", "H5File", "contextmanager_lib"}
+CONSTS = {"np.pi": math.pi, "math.pi": math.pi, "np.newaxis": NONE, "queue.Empty": VClass("Empty")}
+CM_CLASSES = {"File", "H5File", "contextmanager_lib", "suppress"}
 
 # uninterpreted real functions (sound abstraction: nothing is known about them beyond functionality)
 HINT = z3.Function("hint", z3.IntSort(), z3.BoolSort())  # hint(x) is True; it only seeds quantifier instantiation
@@ -1081,11 +1081,19 @@ LIB = {
     "np.average": lambda I, st, a, k, n: (used("np.average/np.mean: some real (pure)"), z3.Real(fresh_name("avg")))[1],
     "np.mean": lambda I, st, a, k, n: (used("np.average/np.mean: some real (pure)"), z3.Real(fresh_name("avg")))[1],
     "np.int64": lambda I, st, a, k, n: a[0],
+    "threading.Thread": lambda I, st, a, k, n: Opaque(z3.Const(fresh_name("thread"), ObjS), "Thread"),
+    "contextlib.suppress": lambda I, st, a, k, n: _suppress(a),
     "np.float64": lambda I, st, a, k, n: to_real(a[0]) if is_z3(a[0]) else float(a[0]),
     "warnings.warn": lambda I, st, a, k, n: NONE,
     "textwrap.dedent": lambda I, st, a, k, n: a[0],
     "multiprocessing.cpu_count": lambda I, st, a, k, n: _posint(st, "cpus"),
 }
+
+
+def _suppress(classes):
+    o = Opaque(z3.Const(fresh_name("suppress"), ObjS), "suppress")
+    o._suppressed = [c.name for c in classes if isinstance(c, VClass)]  # type: ignore[attr-defined]
+    return o
 
 
 def _posint(st, name):
@@ -1153,7 +1161,70 @@ def rng_choice(I, st, rng: Obj, args, kw, node):
 
 
 OBJ_METHODS = {"rng": {"random": rng_random, "integers": rng_integers, "choice": rng_choice}}
-OPAQUE_METHODS: dict = {}
+
+
+# ---- queue / thread models (sequential view of ONE thread; the other thread's actions are not visible) ----------
+def _gint(st, name):
+    if name not in st.ghost:
+        st.ghost[name] = z3.Int(fresh_name("ghost." + name))
+    return st.ghost[name]
+
+
+def q_put(kind):
+    def h(I, st, recv, args, kw, node):
+        used("queue.Queue.put / get / get_nowait: unbounded FIFO (per-thread sequential view; ghost counters)")
+        st.ghost[f"{kind}_put"] = to_z3(_gint(st, f"{kind}_put")) + 1
+        v = args[0]
+        st.ghost[f"{kind}_last_put_is_none"] = (v is NONE)
+        if kind == "actions" and is_num(v):
+            st.ghost["last_action_put"] = v
+        return NONE
+    return h
+
+
+def q_get(kind):
+    def h(I, st, recv, args, kw, node):
+        used("queue.Queue.put / get / get_nowait: unbounded FIFO (per-thread sequential view; ghost counters)")
+        st.ghost[f"{kind}_got"] = to_z3(_gint(st, f"{kind}_got")) + 1
+        if kind == "actions":
+            a = z3.Int(fresh_name("action_msg"))
+            st.fact(z3.And(a >= 0, a < to_z3(_gint(st, "n_samplers"))))   # assumed: only validated actions are queued
+            st.ghost["last_action_got"] = a
+            return a
+        isn = z3.Bool(fresh_name("outcome_is_marker"))
+        st.ghost["last_outcome_is_marker"] = isn
+        return Opt(isn, VTuple([Opaque(z3.Const(fresh_name("best_param"), ObjS), None), z3.Real(fresh_name("best_loss"))]))
+    return h
+
+
+def q_get_nowait(kind):
+    def h(I, st, recv, args, kw, node):
+        n = to_z3(_gint(st, f"{kind}_pending"))
+        s_empty = st.fork()
+        s_empty.assume(n <= 0)
+        st.assume(n > 0)
+        st.ghost[f"{kind}_pending"] = n - 1
+        return [(st, z3.Int(fresh_name("dropped")), None), (s_empty, None, Exc("Empty", ()))]
+    return h
+
+
+def thread_start(I, st, recv, args, kw, node):
+    used("threading.Thread start / join: ghost count of live threads started by this object")
+    st.ghost["live_threads"] = to_z3(_gint(st, "live_threads")) + 1
+    return NONE
+
+
+def thread_join(I, st, recv, args, kw, node):
+    st.ghost["live_threads"] = to_z3(_gint(st, "live_threads")) - 1
+    return NONE
+
+
+OPAQUE_METHODS: dict = {
+    "QueueActions": {"put": q_put("actions"), "get": q_get("actions"), "get_nowait": q_get_nowait("actions")},
+    "QueueOutcomes": {"put": q_put("outcomes"), "get": q_get("outcomes"), "get_nowait": q_get_nowait("outcomes")},
+    "Thread": {"start": thread_start, "join": thread_join},
+    "Discrete": {"contains": lambda I, st, recv, args, kw, node: z3.Bool(fresh_name("contains"))},
+}
 
 
 # ------------------------------------------------------------------------------------------------ value methods
